@@ -141,16 +141,42 @@ def _worker(payload):
     return asyncio.run(main())
 
 
-def defs():
+def defs(require_pow=None):
     return {"TD_ValCfg": {"max_size": CFG["max_size"], "oldest": CFG["oldest"], "valid_kinds": set(CFG["valid_kinds"]),
-                          "whitelist": set(CFG["whitelist"]), "blacklist": set(CFG["blacklist"]), "require_pow": CFG["require_pow"],
+                          "whitelist": set(CFG["whitelist"]), "blacklist": set(CFG["blacklist"]),
+                          "require_pow": CFG["require_pow"] if require_pow is None else require_pow,
                           "hell_limit": CFG["hell_limit"], "service_pk": CFG["service_pk"]}}
 
 
-def relay_config():
+def relay_config(require_pow=None):
     return {"max_event_size": CFG["max_size"], "oldest_event": CFG["oldest"], "valid_kinds": CFG["valid_kinds"],
             "pubkey_whitelist": [C.pubkey(k) for k in CFG["whitelist"]], "pubkey_blacklist": [C.pubkey(k) for k in CFG["blacklist"]],
-            "require_pow": CFG["require_pow"], "hellthread_limit": CFG["hell_limit"], "service_privatekey": C.SECRETS["S"]}
+            "require_pow": CFG["require_pow"] if require_pow is None else require_pow, "hellthread_limit": CFG["hell_limit"],
+            "service_privatekey": C.SECRETS["S"]}
+
+
+def pow_sweep(out, tier):
+    """the proof-of-work bound is a parameter: every requirement from 1 to 9 (thorough: to 13) bits - all residues modulo the
+    four bits of a hex digit - against ids ground to exactly r-2 .. r+1 leading zero bits, is_pow alone and after is_signed"""
+    reqs = range(1, 10) if tier == "quick" else range(1, 14)
+    for r in reqs:
+        vectors = [dict(NOMINAL, pow=b) for b in range(max(0, r - 2), r + 2)]
+        pipes = [["is_pow"], ["is_signed", "is_pow"]]
+        payloads = [(b, pipes, vectors) for b in ("sql", "lmdb")]
+        results = pool.map_in_workers("harness.checks.c16", "_worker", payloads, config=relay_config(r))
+        traces = [tr for res in results for tr in res]
+        verdicts, vstats = tracedata.validate("Validators_Trace", defs(r), traces, batch=8)
+        out.add_model(vstats)
+        for k, tr in enumerate(traces):
+            out.cov["traces_validated_against_impl"] += 1
+            out.cov["evaluations"] += len(tr)
+            for b in verdicts[k]:
+                ln = tr[b[1] - 1]
+                what = "C16 is_pow with require_pow=%d: %s for an id with %d leading zero bits -> ok=%s reason=%r stored=%s" % (
+                    r, b[0], ln["e"]["pow"], ln["ok"], ln["_reason"], ln["stored"])
+                out.violation(what, {"formula": b[0], "backend": "sql" if k < len(pipes) else "lmdb", "line": ln}, None)
+                break
+    out.notes["pow_requirements_swept"] = list(reqs)
 
 
 def run(prop, tier, seed, **kw):
@@ -182,6 +208,7 @@ def run(prop, tier, seed, **kw):
                 backs[k], ln["pipe"], b[0], ln["e"], ln["ok"], ln["_reason"], ln["stored"], ln["bcast"])
             out.violation(what, {"formula": b[0], "backend": backs[k], "line": ln}, lambda p, tr=tr, b=b: _dump(p, tr, b))
             break
+    pow_sweep(out, tier)
     dynlists.run_into(out, tier, seed)
     out.cov["distinct_nontrivial"] = len(distinct) + out.notes.get("dynlists_nontrivial", 0)
     out.cov["rule"] = ("validators: %d attribute vectors (nominal; every single deviation at, just inside and just outside each bound: "
